@@ -103,7 +103,9 @@ pub fn bfs<Y: Sys>(sys: &Y, keep_edges: bool, max_states: usize) -> Graph<Y> {
     let alphabet = sys.alphabet();
     let mut head = 0;
     while head < g.states.len() {
-        if g.states.len() > max_states {
+        // stop at the state cap - or once 5000 violating edges have been recorded: the search is breadth-first, so those
+        // are the shallowest ones, and a tree that broken would otherwise be explored to the cap for nothing
+        if g.states.len() > max_states || g.bads.len() >= 5000 {
             g.capped = true;
             break;
         }
